@@ -971,11 +971,26 @@ func (r *stateResolverV2) getPowerLevelFromAuthEvents(event PDU) int64 {
 		// get the create event
 		createEvent := r.resolvedCreate
 		if createEvent == nil {
-			panic("getPowerLevelFromAuthEvents: missing resolved create event, cannot calculate PL of sender!")
+			// State resolution v2.1 starts from the empty state, so the create event has
+			// not been resolved yet when the power events are ordered: take it from the
+			// event itself or from its auth events instead.
+			if event.Type() == spec.MRoomCreate && event.StateKeyEquals("") {
+				createEvent = event
+			}
+			for _, authID := range event.AuthEventIDs() {
+				if createEvent != nil {
+					break
+				}
+				if authEvent, ok := r.authEventMap[authID]; ok && authEvent.Type() == spec.MRoomCreate && authEvent.StateKeyEquals("") {
+					createEvent = authEvent
+				}
+			}
 		}
-		for _, creator := range CreatorsFromCreateEvent(createEvent) {
-			if creator == string(user) {
-				return CreatorPowerLevel
+		if createEvent != nil {
+			for _, creator := range CreatorsFromCreateEvent(createEvent) {
+				if creator == string(user) {
+					return CreatorPowerLevel
+				}
 			}
 		}
 		// otherwise they aren't a creator, so check the PL event.
